@@ -40,6 +40,7 @@ Mutations(m) ==
   \cup {[m EXCEPT !.lines = Ins(ls, i, x)] : i \in 1..(n + 1), x \in {Txt(8), Blank}}
   \cup {[m EXCEPT !.lines = Rep(ls, i, [ls[i] EXCEPT !.key = 0, !.uid = <<"forged", i>>])] : i \in {j \in 1..n : ls[j].k = "sig"}}
   \cup {[m EXCEPT !.lines = Rep(ls, i, [ls[i] EXCEPT !.name = "C", !.uid = <<"renamed", i>>])] : i \in {j \in 1..n : ls[j].k = "sig"}}
+  \cup {[m EXCEPT !.lines = Rep(ls, i, [ls[i] EXCEPT !.name = IF ls[i].name = "A" THEN "a" ELSE "b", !.uid = <<"recased", i>>])] : i \in {j \in 1..n : ls[j].k = "sig"}}
   \cup {[m EXCEPT !.lines = Rep(ls, i, [ls[i] EXCEPT !.form = f, !.uid = <<f, i>>])] : i \in {j \in 1..n : ls[j].k = "sig"}, f \in {"short", "notb64"}}
   \cup {[m EXCEPT !.lines = Rep(ls, i, [ls[i] EXCEPT !.nameok = FALSE, !.uid = <<"badname", i>>])] : i \in {j \in 1..n : ls[j].k = "sig"}}
   \cup {[m EXCEPT !.lines = Ins(ls, i, ls[i])] : i \in {j \in 1..n : ls[j].k = "sig"}}
